@@ -25,6 +25,11 @@ var c05Conds = []c05Cond{
 	{"cIneg", func() interface{} { return -3 }, nil},
 	{"cFl0", func() interface{} { return 0.0 }, nil},
 	{"cFl", func() interface{} { return 2.5 }, nil},
+	{"cFlHalf", func() interface{} { return 0.5 }, nil},              // non-zero, but truncates to 0
+	{"cFlNegQ", func() interface{} { return float32(-0.25) }, nil},
+	{"cI8", func() interface{} { return int8(-1) }, nil},
+	{"cU64big", func() interface{} { return uint64(1) << 63 }, nil}, // non-zero, but negative / zero after a signed or 32-bit conversion
+	{"cI64hi", func() interface{} { return int64(1) << 32 }, nil},
 	{"cS0", func() interface{} { return "" }, nil},
 	{"cSa", func() interface{} { return "a" }, nil},
 	{"cSsp", func() interface{} { return " " }, nil},
@@ -46,6 +51,7 @@ var c05Conds = []c05Cond{
 	{"", nil, rj.B(false)},
 	{"", nil, rj.N(0)},
 	{"", nil, rj.N(1)},
+	{"", nil, rj.N(0.5)},
 	{"", nil, rj.S("")},
 	{"", nil, rj.S("a")},
 	{"", nil, rj.Nil()},
